@@ -111,6 +111,46 @@ fn main() {
             }
             Ok(())
         }
+        // vh commit <list-file> <repeat>: for every line `<debug 0|1>\t<path>` compile the file `repeat` times in this
+        // process; print one JSON line per input: distinct encodings / CMRs seen, or the error
+        Some("commit") if args.len() >= 4 => {
+            let list = std::fs::read_to_string(&args[2]).unwrap_or_default();
+            let repeat: usize = args[3].parse().unwrap_or(3);
+            for line in list.lines() {
+                let Some((dbg, path)) = line.split_once('\t') else { continue };
+                let text = std::fs::read_to_string(path).unwrap_or_default();
+                let mut encs: Vec<String> = vec![];
+                let mut cmrs: Vec<String> = vec![];
+                let mut errs: Vec<String> = vec![];
+                for _ in 0..repeat {
+                    let r = catch_unwind(AssertUnwindSafe(|| {
+                        simfony::CompiledProgram::new(text.as_str(), simfony::Arguments::default(), dbg == "1").map(|c| {
+                            let commit = c.commit();
+                            let bytes = commit.encode_to_vec();
+                            (bytes.iter().map(|b| format!("{b:02x}")).collect::<String>(), commit.cmr().to_string())
+                        })
+                    }));
+                    match r {
+                        Ok(Ok((e, c))) => {
+                            if !encs.contains(&e) {
+                                encs.push(e);
+                            }
+                            if !cmrs.contains(&c) {
+                                cmrs.push(c);
+                            }
+                        }
+                        Ok(Err(e)) => {
+                            if !errs.contains(&e) {
+                                errs.push(e);
+                            }
+                        }
+                        Err(p) => errs.push(format!("panic:{}", panic_message(p))),
+                    }
+                }
+                println!("{}", json!({"path": path, "dbg": dbg == "1", "enc": encs, "cmr": cmrs, "err": errs}));
+            }
+            Ok(())
+        }
         _ => Err("usage: vh replay <cases.ndjson> <results.ndjson> [threads]".to_string()),
     };
     if let Err(e) = r {
